@@ -29,8 +29,9 @@ import (
 
 type reqCase struct {
 	ID        interface{} `json:"id"`
-	Kind      string      `json:"kind"` // "" = codec round trip of a program; "argv" = command-line parsing only
+	Kind      string      `json:"kind"` // "" = codec round trip; "argv" = command-line parsing only; "sdk" = see sdk.go
 	Argv      []string    `json:"argv"`
+	SDK       *sdkScript  `json:"sdk"`
 	Cwd       string      `json:"cwd"`
 	IDL       string      `json:"idl"`
 	Includes  []string    `json:"includes"`
@@ -235,6 +236,11 @@ func Run(in, out string) error {
 		}
 		if c.Kind == "argv" {
 			return argvOne(&c), nil
+		}
+		if c.Kind == "sdk" {
+			o := sdkOne(&c)
+			o.Version = version.ThriftgoVersion
+			return o, nil
 		}
 		return reqcodecOne(&c), nil
 	})
